@@ -195,8 +195,12 @@ def later_ops_ok(desc, path, r):
 
     d = os.path.dirname(str(path))
     s = st.TextFileStore(path)
-    s.write("after-kill")
-    if s.read() != "after-kill":
+    try:
+        s.write("after-kill")
+        got = s.read()
+    except BaseException as e:
+        return f"a later ordinary write/read after a killed write failed with {e!r} (directory: {sorted(os.listdir(d))})"
+    if got != "after-kill":
         return "a later ordinary write/read after a killed write did not round-trip"
     left = [n for n in os.listdir(d) if n.endswith(".STAGING")]
     if left:
